@@ -336,7 +336,12 @@ func (e *Engine) listen(ln net.Listener, tlsConfig *tls.Config, addConn func(*Co
 		}()
 		for !e.shutdown {
 			conn, err := ln.Accept()
-			if err == nil && !e.shutdown {
+			if err == nil && e.shutdown {
+				// accepted while Stop/Shutdown was closing the listeners: nobody would ever close it
+				_ = conn.Close()
+				continue
+			}
+			if err == nil {
 				addConn(&Conn{Conn: conn}, tlsConfig, decrease)
 			} else {
 				var ne net.Error
